@@ -3,6 +3,8 @@
 package pfcpiface
 
 import (
+	"time"
+
 	"github.com/wmnsk/go-pfcp/message"
 )
 
@@ -93,4 +95,74 @@ func H_C13_digest() {
 	m2, ok2 := e.vLastReply().(*message.SessionReportRequest)
 	vAssert("second:sent", ok2 && len(e.conn.writes) == before+2)
 	vAssert("second:sequence-differs", m2.Sequence() != m.Sequence())
+}
+
+var vC13Reports = 3
+
+// H_C13_notify: the rate limiter (NewDownlinkDataNotifier / Notify / shouldNotify)
+// under a symbolic clock: vC13Reports datapath reports with arbitrary F-SEIDs at
+// arbitrary (strictly increasing) instants, arbitrary positive interval.
+// Each report k is bracketed by two clock reads of the harness, before_k and
+// after_k; the limiter's own reads fall between them.
+func H_C13_notify() {
+	ch := make(chan uint64, 8)
+	iv := time.Duration(vU64("interval_ns") & (1<<40 - 1))
+	vAssume(iv > 0)
+	n := NewDownlinkDataNotifier(ch, iv)
+
+	type rep struct {
+		fseid         uint64
+		before, after time.Time
+		fwd           bool
+	}
+	var hist []rep
+	for k := 0; k < vC13Reports; k++ {
+		f := vU64("fseid")
+		r := rep{fseid: f, before: time.Now()}
+		q := len(ch)
+		n.Notify(f)
+		r.after = time.Now()
+		r.fwd = len(ch) == q+1
+		vAssert("at-most-one-event-per-report", len(ch) == q || len(ch) == q+1)
+		if r.fwd {
+			// the event forwarded carries the reported F-SEID
+			var last uint64
+			for j := 0; j <= q; j++ {
+				last = <-ch
+				ch <- last
+			}
+			vAssert("forwarded-event-carries-the-fseid", last == f)
+		}
+		vObserve("fwd", r.fwd)
+		// the last forwarded predecessor of the same session
+		prev := -1
+		for j := range hist {
+			if hist[j].fseid == f && hist[j].fwd {
+				prev = j
+			}
+		}
+		seen := false
+		for j := range hist {
+			if hist[j].fseid == f {
+				seen = true
+			}
+		}
+		if !seen {
+			vCover("first-report")
+			vAssert("first-report-never-suppressed", r.fwd)
+		} else if r.fwd {
+			vCover("forwarded-again")
+			vAssert("seen-implies-forwarded-predecessor", prev >= 0)
+			// at most one per interval: even the most lenient reading of the two
+			// event instants puts them at least one interval apart
+			vAssert("two-forwarded-at-least-one-interval-apart", r.after.Sub(hist[prev].before) >= iv)
+		} else {
+			vCover("suppressed")
+			vAssert("seen-implies-forwarded-predecessor", prev >= 0)
+			// a report is only suppressed because of a notification less than one
+			// interval earlier
+			vAssert("suppressed-only-within-interval", r.before.Sub(hist[prev].after) < iv)
+		}
+		hist = append(hist, r)
+	}
 }
